@@ -196,10 +196,30 @@ def run(ctx):
     from .. import segments
     for fn, seps in preds:
         res, note = segments.verdicts(fn)
+        fold_form = False
+        if res is None:
+            from .. import segfold
+            res2, note2 = segfold.verdicts(F, fn)
+            if res2 is not None:
+                res, note, fold_form = res2, note2, True
         if res is None:
             r5.note("%s: %s - the body is not decided by this rule (anchor R4 only)" % (fn.def_, note))
             chk.undecided_extra = getattr(chk, "undecided_extra", []) + ["the string logic of %s (not a segment walk with a depth)" % fn.def_]
             r5.floor = 0        # nothing of this form to count: the rule is silent, not vacuously satisfied (see the note)
+            continue
+        if fold_form:
+            # the fold form (A12b): same obligations, read off the closure; the clause about the walked text is one of its entries
+            seen_keys = set()
+            for cls, ok, why, line in res:
+                if not ok and why.startswith("UNDECIDED"):
+                    r5.note("%s, segment %r: %s (line %d)" % (fn.def_, cls, why, line))
+                    chk.undecided_extra = getattr(chk, "undecided_extra", []) + ["%s, segment %r: %s" % (fn.def_, cls, why)]
+                    r5.floor = 0
+                    continue
+                r5.instance({"predicate": fn.def_, "segment_class": cls, "path_outcome": why, "form": "try_fold"}, ok)
+                if not ok and (cls, why) not in seen_keys:
+                    seen_keys.add((cls, why))
+                    r5.violate("C01|R5|%s|%s" % (fn.def_, cls), "%s, segment %r: %s" % (fn.def_, cls, why), fn.file, line, fn.def_)
             continue
         sh = segments.find_shape(fn)
         du_p = du_of(fn)
